@@ -107,6 +107,42 @@ Proof. exact (kit_affine_lawful). Qed.
 Theorem c01_flip_lawful : kit_lawful kit_flip fl_pending.
 Proof. exact (kit_flip_lawful). Qed.
 
+(** Min over an element type ordered by a key only, elements (key, id): merge keeps the RIGHT operand on ties (rightmost minimum) - lawful *)
+Theorem c01_minkey_lawful : kit_lawful kit_minkey no_pending.
+Proof. exact (kit_minkey_lawful). Qed.
+
+(** Max over (key, id): rightmost maximum - lawful *)
+Theorem c01_maxkey_lawful : kit_lawful kit_maxkey no_pending.
+Proof. exact (kit_maxkey_lawful). Qed.
+
+(** the tie rule of Min / Max merge: equal keys give the right operand, whatever the ids *)
+Theorem c01_key_tie_right : forall a b : Z * Z, fst a = fst b -> kmin_merge a b = b /\ kmax_merge a b = b.
+Proof. exact (fun a b H => conj (kmin_merge_tie a b H) (kmax_merge_tie a b H)). Qed.
+
+(** Min / Max over f64 restricted to integral values and the two zeros ((value, sign bit of a zero)): same algebra, default f64::MAX / f64::MIN *)
+Theorem c01_minf_lawful : kit_lawful kit_minf no_pending.
+Proof. exact (kit_minf_lawful). Qed.
+Theorem c01_maxf_lawful : kit_lawful kit_maxf no_pending.
+Proof. exact (kit_maxf_lawful). Qed.
+
+(** MinAdd / MaxAdd over (key, id) (modifiers add to the key): lawful, pending = sum of the keys of the unpushed modifiers *)
+Theorem c01_minaddkey_lawful : kit_lawful kit_minaddkey kva_pending.
+Proof. exact (kit_minaddkey_lawful). Qed.
+Theorem c01_maxaddkey_lawful : kit_lawful kit_maxaddkey kva_pending.
+Proof. exact (kit_maxaddkey_lawful). Qed.
+
+(** Sum over strings with + = concatenation (non-commutative +) is lawful *)
+Theorem c01_sumcat_lawful : kit_lawful kit_sumcat no_pending.
+Proof. exact (kit_sumcat_lawful). Qed.
+
+(** Combinator<Concat, Concat>, Combinator<Min, Combinator<Max, Sum>> (right-nested, M = ()), Combinator<Flip, Sum> *)
+Theorem c01_combcat_lawful : kit_lawful kit_combcat (comb_pending cc_pending cc_pending).
+Proof. exact (kit_combcat_lawful). Qed.
+Theorem c01_combunit_lawful : kit_lawful kit_combunit (comb_pending no_pending (comb_pending no_pending no_pending)).
+Proof. exact (kit_combunit_lawful). Qed.
+Theorem c01_combflip_lawful : kit_lawful kit_combflip (comb_pending fl_pending no_pending).
+Proof. exact (kit_combflip_lawful). Qed.
+
 (** on every case where the implementation agrees with the model, its observations satisfy the plain-array specification *)
 Theorem c01_model_check_spec_check : forall c : C01.Corr.case, C01.Corr.model_check c = true -> C01.Corr.spec_check c = true.
 Proof. exact (fun c => model_check_spec_check_gen true false c). Qed.
